@@ -379,3 +379,94 @@ def load_program(name, source, subdir='app'):
     ns = {'__name__': name, '__file__': path}
     exec(code, ns)
     return ns, path
+
+
+# ---------------------------------------------------------------------------------------
+# a whole real Deep over a fake transport
+class FakeGrpcModule:
+    """Stands in for the `grpc` module inside deep.grpc.grpc_service."""
+
+    def __init__(self, channel):
+        self.channel = channel
+        self.calls = []
+
+    def insecure_channel(self, url, *a, **kw):
+        self.calls.append(('insecure', url))
+        return self.channel
+
+    def secure_channel(self, url, creds, *a, **kw):
+        self.calls.append(('secure', url))
+        return self.channel
+
+    def ssl_channel_credentials(self, *a, **kw):
+        return 'ssl-creds'
+
+
+class DeepWorld:
+    """Context manager: a real deep.api.Deep (real TaskHandler, LongPoll, PushService, TriggerHandler,
+    GRPCService, plugin loader) whose only fake part is the grpc module / channel."""
+
+    def __init__(self, custom=None, env=None, channel=None, builtin_plugins=False, extra_patches=()):
+        self.custom = dict(custom or {})
+        self.env = env or {}
+        self.channel = channel or FakeChannel()
+        self.builtin = builtin_plugins
+        self.extra = list(extra_patches)
+        self.deep = None
+
+    def __enter__(self):
+        import deep.grpc.grpc_service as GS
+        import deep.api.plugin as PL
+        import deep.api.deep as D
+        reset_agent_globals()
+        self._saved_env = {k: os.environ.get(k) for k in self.env}
+        for k, v in self.env.items():
+            if v is None:
+                os.environ.pop(k, None)
+            else:
+                os.environ[k] = v
+        self.grpc = FakeGrpcModule(self.channel)
+        self._patches = [(GS, 'grpc', GS.grpc)]
+        GS.grpc = self.grpc
+        if not self.builtin:
+            self._patches.append((PL, 'DEEP_PLUGINS', PL.DEEP_PLUGINS))
+            PL.DEEP_PLUGINS = []
+        for mod, attr, val in self.extra:
+            self._patches.append((mod, attr, getattr(mod, attr)))
+            setattr(mod, attr, val)
+        self._trace = (sys.gettrace(), threading.gettrace())
+        self.custom.setdefault('APP_ROOT', '/nonexistent-app-root')
+        self.custom.setdefault('POLL_TIMER', 3600)
+        self.custom.setdefault('SERVICE_URL', 'fake:1')
+        cfg = ConfigService(self.custom, tracepoints=TracepointConfigService())
+        self.config = cfg
+        self.deep = D.Deep(cfg)
+        return self
+
+    def __exit__(self, *a):
+        try:
+            if self.deep is not None and self.deep.started:
+                try:
+                    self.deep.shutdown()
+                except BaseException:
+                    pass
+            # make sure no poll thread / pool thread survives the case
+            try:
+                if self.deep.poll.timer is not None:
+                    self.deep.poll.timer.event.set()
+            except Exception:
+                pass
+            try:
+                self.deep.task_handler._pool.shutdown(wait=False)
+            except Exception:
+                pass
+        finally:
+            sys.settrace(self._trace[0])
+            threading.settrace(self._trace[1])
+            for mod, attr, val in reversed(self._patches):
+                setattr(mod, attr, val)
+            for k, v in self._saved_env.items():
+                if v is None:
+                    os.environ.pop(k, None)
+                else:
+                    os.environ[k] = v
